@@ -19,7 +19,11 @@ VARIABLES l,   \* next line of the trace
           \* burst: -1 outside a burst, else the number of in-band reports since BurstBegin (the harness
           \* marks a quick burst of failing entries after a quiet period: the report is rate limited)
 VARIABLE burst
-tvars == <<avars, l, rk, sub, burst>>
+\* prog (C04, bounded progress): [b |-> bound on further hand-offs before an outstanding flush request
+\* completes (0 = not checked; the scenario generator derives it from capacity, flush interval and the
+\* per-entry delay of the recorded stream), at |-> flush request :> Len(nexted) when it was issued]
+VARIABLE prog
+tvars == <<avars, l, rk, sub, burst, prog>>
 
 Ev(name) == l <= N /\ Rec[l].ev = name
 Adv == l' = l + 1
@@ -27,7 +31,7 @@ Adv == l' = l + 1
 TInit ==
     /\ l = 1
     /\ AInit(1, 1)
-    /\ rk = <<>> /\ sub = 0 /\ burst = -1
+    /\ rk = <<>> /\ sub = 0 /\ burst = -1 /\ prog = [b |-> 0, at |-> <<>>]
     /\ TLCSet(1, 1)
 
 TReset ==
@@ -37,32 +41,35 @@ TReset ==
     /\ closed' = FALSE /\ before' = <<>> /\ fdone' = {} /\ hs' = "held" /\ snap' = {}
     /\ sinks' = Rec[l].sinks
     /\ rk' = <<>> /\ sub' = Rec[l].sub /\ burst' = -1
+    /\ prog' = [b |-> (IF "lbound" \in DOMAIN Rec[l] THEN Rec[l].lbound ELSE 0), at |-> <<>>]
 
-TAppStart == Ev("AppStart") /\ Adv /\ AppStart(Rec[l].p, Rec[l].e) /\ rk' = (Rec[l].e :> Rec[l].r) @@ rk /\ UNCHANGED <<sub, burst>>
-TAppEnd   == Ev("AppEnd") /\ Adv /\ AppEnd(Rec[l].p, Rec[l].e) /\ UNCHANGED <<rk, sub, burst>>
-TNext     == Ev("Next") /\ Adv /\ Next(Rec[l].e, Rec[l].res) /\ UNCHANGED <<rk, sub, burst>>
-TReport   == Ev("Report") /\ Adv /\ sub = 0 /\ Report /\ burst' = (IF burst >= 0 THEN burst + 1 ELSE burst) /\ UNCHANGED <<rk, sub>>
-TFlush    == Ev("Flush") /\ Adv /\ Flush /\ UNCHANGED <<rk, sub, burst>>
-TClose    == Ev("Close") /\ Adv /\ Close /\ UNCHANGED <<rk, sub, burst>>
-TFlushReq == Ev("FlushReq") /\ Adv /\ FlushReq(Rec[l].f) /\ UNCHANGED <<rk, sub, burst>>
-TFlushDone == Ev("FlushDone") /\ Adv /\ FlushDone(Rec[l].f) /\ UNCHANGED <<rk, sub, burst>>
-TDropStart == Ev("DropStart") /\ Adv /\ DropStart /\ UNCHANGED <<rk, sub, burst>>
-TDropEnd  == Ev("DropEnd") /\ Adv /\ DropEnd /\ UNCHANGED <<rk, sub, burst>>
-TForget   == Ev("Forget") /\ Adv /\ Forget /\ UNCHANGED <<rk, sub, burst>>
-TSinkClone == Ev("SinkClone") /\ Adv /\ SinkClone /\ UNCHANGED <<rk, sub, burst>>
-TSinkDrop == Ev("SinkDrop") /\ Adv /\ SinkDrop /\ UNCHANGED <<rk, sub, burst>>
-TQuiesce  == Ev("Quiesce") /\ Adv /\ Quiesced /\ UNCHANGED <<avars, rk, sub, burst>>
+TAppStart == Ev("AppStart") /\ Adv /\ AppStart(Rec[l].p, Rec[l].e) /\ rk' = (Rec[l].e :> Rec[l].r) @@ rk /\ UNCHANGED <<sub, burst, prog>>
+TAppEnd   == Ev("AppEnd") /\ Adv /\ AppEnd(Rec[l].p, Rec[l].e) /\ UNCHANGED <<rk, sub, burst, prog>>
+\* bounded progress: the writer does not hand over `prog.b` further entries while a flush request is outstanding
+ProgressOK == prog.b = 0 \/ \A f \in DOMAIN prog.at : f \in fdone \/ Len(nexted) - prog.at[f] < prog.b
+TNext     == Ev("Next") /\ Adv /\ ProgressOK /\ Next(Rec[l].e, Rec[l].res) /\ UNCHANGED <<rk, sub, burst, prog>>
+TReport   == Ev("Report") /\ Adv /\ sub = 0 /\ Report /\ burst' = (IF burst >= 0 THEN burst + 1 ELSE burst) /\ UNCHANGED <<rk, sub, prog>>
+TFlush    == Ev("Flush") /\ Adv /\ Flush /\ UNCHANGED <<rk, sub, burst, prog>>
+TClose    == Ev("Close") /\ Adv /\ Close /\ UNCHANGED <<rk, sub, burst, prog>>
+TFlushReq == Ev("FlushReq") /\ Adv /\ FlushReq(Rec[l].f) /\ prog' = [prog EXCEPT !.at = (Rec[l].f :> Len(nexted)) @@ prog.at] /\ UNCHANGED <<rk, sub, burst>>
+TFlushDone == Ev("FlushDone") /\ Adv /\ FlushDone(Rec[l].f) /\ UNCHANGED <<rk, sub, burst, prog>>
+TDropStart == Ev("DropStart") /\ Adv /\ DropStart /\ UNCHANGED <<rk, sub, burst, prog>>
+TDropEnd  == Ev("DropEnd") /\ Adv /\ DropEnd /\ UNCHANGED <<rk, sub, burst, prog>>
+TForget   == Ev("Forget") /\ Adv /\ Forget /\ UNCHANGED <<rk, sub, burst, prog>>
+TSinkClone == Ev("SinkClone") /\ Adv /\ SinkClone /\ UNCHANGED <<rk, sub, burst, prog>>
+TSinkDrop == Ev("SinkDrop") /\ Adv /\ SinkDrop /\ UNCHANGED <<rk, sub, burst, prog>>
+TQuiesce  == Ev("Quiesce") /\ Adv /\ Quiesced /\ UNCHANGED <<avars, rk, sub, burst, prog>>
 \* the queue's own metrics are the subject of QueueMetricsTrace.tla (X04); here they are skipped
-TSelfMetrics == Ev("SelfMetrics") /\ Adv /\ UNCHANGED <<avars, rk, sub, burst>>
+TSelfMetrics == Ev("SelfMetrics") /\ Adv /\ UNCHANGED <<avars, rk, sub, burst, prog>>
 \* rate limit of the in-band report (interval 1 s, whole seconds): a burst that took less than a
 \* second of wall time contains at most two reports (one per second it touches)
-TBurstBegin == Ev("BurstBegin") /\ Adv /\ burst' = 0 /\ UNCHANGED <<avars, rk, sub>>
+TBurstBegin == Ev("BurstBegin") /\ Adv /\ burst' = 0 /\ UNCHANGED <<avars, rk, sub, prog>>
 TBurstEnd == /\ Ev("BurstEnd") /\ Adv
              /\ (Rec[l].short = 1 => burst <= 2)
-             /\ burst' = -1 /\ UNCHANGED <<avars, rk, sub>>
+             /\ burst' = -1 /\ UNCHANGED <<avars, rk, sub, prog>>
 \* a tracing subscriber is installed from here on (bq scenario `after_sub`)
-TSubInstalled == Ev("SubInstalled") /\ Adv /\ sub' = 1 /\ UNCHANGED <<avars, rk, burst>>
-TOverflows == Ev("Overflows") /\ Adv /\ OverflowCount(Rec[l].n) /\ UNCHANGED <<avars, rk, sub, burst>>
+TSubInstalled == Ev("SubInstalled") /\ Adv /\ sub' = 1 /\ UNCHANGED <<avars, rk, burst, prog>>
+TOverflows == Ev("Overflows") /\ Adv /\ OverflowCount(Rec[l].n) /\ UNCHANGED <<avars, rk, sub, burst, prog>>
 \* events the harness logs when something that must happen did not (append took longer
 \* than its budget, a flush never completed, the stream was never closed, a panic):
 \* no action consumes them, so the trace is rejected there.
@@ -75,10 +82,10 @@ InOrder(e) == \A pe2 \in pending : rk[e] = 0 \/ rk[pe2[2]] = 0 \/ rk[e] <= rk[pe
 \* the entry it hands over next.
 SilentLin == /\ l <= N /\ \E pe \in pending : InOrder(pe[2]) /\ Lin(pe[1], pe[2])
              /\ (Len(q) >= cap => rk[Head(q)] = 0)
-             /\ UNCHANGED <<l, rk, sub, burst>>
+             /\ UNCHANGED <<l, rk, sub, burst, prog>>
 SilentPop == /\ l <= N /\ Pop
              /\ rk[Head(q)] = Len(nexted) + 1
-             /\ UNCHANGED <<l, rk, sub, burst>>
+             /\ UNCHANGED <<l, rk, sub, burst, prog>>
 
 TNext_ ==
     \/ TReset \/ TAppStart \/ TAppEnd \/ TNext \/ TReport \/ TFlush \/ TClose
